@@ -643,7 +643,63 @@ func scenarioIdle(seed int64, idle, frame time.Duration) *verdict {
 	return w.finish(nil, 0, 3*time.Second+2*idle)
 }
 
+// scenarioOrder: a recipient that reads slowly for a while (its send queue on the server fills up) and then catches
+// up must still receive one sender's relays in the order the sender made the requests, each exactly once (C02)
+func scenarioOrder(seed int64, idle, frame time.Duration) *verdict {
+	w := newWorld(seed, 5*time.Second, frame)
+	slow := w.s.dial("slow", false)
+	w.all = append(w.all, slow)
+	slow.send(&hagallpb.ParticipantJoinRequest{Type: hagallpb.MsgType_MSG_TYPE_PARTICIPANT_JOIN_REQUEST, Timestamp: now(), RequestId: rid(), SessionId: w.sidA})
+	time.Sleep(50 * time.Millisecond)
+	const total = 5000
+	body := bytes.Repeat([]byte{9}, 4000)
+	sent := make(chan struct{})
+	go func() {
+		defer close(sent)
+		for i := 0; i < total; i++ {
+			b := append([]byte(fmt.Sprintf("%08d", i)), body...)
+			if w.w1.send(&hagallpb.CustomMessage{Type: hagallpb.MsgType_MSG_TYPE_CUSTOM_MESSAGE, Timestamp: now(), Body: b}) != nil {
+				return
+			}
+		}
+	}()
+	time.Sleep(600 * time.Millisecond) // the backlog builds up
+	go slow.readLoop()
+	select {
+	case <-sent:
+	case <-time.After(20 * time.Second):
+	}
+	deadline := time.Now().Add(10 * time.Second)
+	for slow.count(hagallpb.MsgType_MSG_TYPE_CUSTOM_MESSAGE_BROADCAST, nil) < total && time.Now().Before(deadline) {
+		time.Sleep(10 * time.Millisecond)
+	}
+	var v *verdict
+	slow.mu.Lock()
+	last := -1
+	n := 0
+	for _, m := range slow.got {
+		if m.Type == nil || int32(m.Type.Number()) != int32(hagallpb.MsgType_MSG_TYPE_CUSTOM_MESSAGE_BROADCAST) {
+			continue
+		}
+		var b hagallpb.CustomMessageBroadcast
+		m.DataTo(&b)
+		var seq int
+		fmt.Sscanf(string(b.Body[:8]), "%d", &seq)
+		n++
+		if seq <= last && v == nil {
+			v = &verdict{"relays-out-of-order", fmt.Sprintf("a recipient catching up on a backlog received relay %d after relay %d of the same sender", seq, last)}
+		}
+		last = seq
+	}
+	slow.mu.Unlock()
+	if v == nil && n != total {
+		v = &verdict{"relays-lost", fmt.Sprintf("a recipient that caught up received %d of %d relays", n, total)}
+	}
+	return w.finish(v, 0, 8*time.Second)
+}
+
 var scenarios = map[string]func(int64, time.Duration, time.Duration) *verdict{
+	"order": scenarioOrder,
 	"malformed": scenarioMalformed, "fields": scenarioFields, "burst": scenarioBurst, "abrupt": scenarioAbrupt,
 	"stall-chatty": scenarioStallChatty, "stall-silent": scenarioStallSilent, "idle": scenarioIdle,
 }
